@@ -97,6 +97,14 @@ func SafeExecute(p Property, sc *Scenario) (res *Result) {
 			}
 		}
 	}()
+	if sc.P("env.debugcpu", 0) != 0 {
+		// the instruction trace of the emulator goes to standard output: discarded
+		if null, err := os.OpenFile(os.DevNull, os.O_WRONLY, 0); err == nil {
+			saved := os.Stdout
+			os.Stdout = null
+			defer func() { os.Stdout = saved; null.Close() }()
+		}
+	}
 	return p.Execute(sc)
 }
 
